@@ -85,7 +85,10 @@ class ServiceAccessPoint(object):
             return insertable
 
     def remove_socket(self, socket):
-        assert socket.addr == self.addr
+        if socket.addr != self.addr:
+            # unbound meanwhile by terminate(), which also shuts it down
+            socket.close()
+            return
         socket.close()
         with self.llc.lock:
             try:
@@ -691,9 +694,12 @@ class LogicalLinkController(object):
                 log.debug("can't dispatch PDU %s", rcvd_pdu)
 
     def resolve(self, name):
+        sdp = self.sap[1]
+        if sdp is None:
+            return None  # link terminated, same as when it ends meanwhile
         if isinstance(name, (bytes, bytearray)):
-            return self.sap[1].resolve(bytes(name))
-        return self.sap[1].resolve(name.encode('latin'))
+            return sdp.resolve(bytes(name))
+        return sdp.resolve(name.encode('latin'))
 
     def socket(self, socket_type):
         if socket_type == RAW_ACCESS_POINT:
@@ -815,7 +821,13 @@ class LogicalLinkController(object):
             raise err.Error(errno.EOPNOTSUPP)
         while True:
             client = socket.accept()
-            self.sap[client.addr].insert_socket(client)
+            sap = self.sap[client.addr]
+            if sap is None:
+                # the link terminated just after the connection was accepted
+                client.bind(None)
+                client.close()
+                raise err.Error(errno.EPIPE)
+            sap.insert_socket(client)
             log.debug("new data link connection ({0} <=== {1})"
                       .format(client.addr, client.peer))
             if client.send_miu > self.cfg['send-miu']:
@@ -876,9 +888,15 @@ class LogicalLinkController(object):
     def close(self, socket):
         if not isinstance(socket, tco.TransmissionControlObject):
             raise err.Error(errno.ENOTSOCK)
-        if socket.is_bound:
-            self.sap[socket.addr].remove_socket(socket)
+        addr = socket.addr
+        sap = self.sap[addr] if addr is not None else None
+        if sap is not None:
+            sap.remove_socket(socket)
         else:
+            # Not bound, or the service access point is gone because the
+            # socket was closed before or the link terminated. There is
+            # nobody to disconnect from, just shut the socket down.
+            socket.bind(None)
             socket.close()
 
     def getsockname(self, socket):
